@@ -4,6 +4,7 @@ import (
 	"fmt"
 	"io"
 	"os"
+	"path/filepath"
 	"strings"
 
 	"google.golang.org/protobuf/compiler/protogen"
@@ -21,15 +22,22 @@ func main() {
 	writeResponse(plugin)
 }
 
+// fail reports an error the way protogen.Options.Run does for the other plugins:
+// the message on stderr and exit status 1, instead of a panic with a stack trace.
+func fail(err error) {
+	fmt.Fprintf(os.Stderr, "%s: %v\n", filepath.Base(os.Args[0]), err)
+	os.Exit(1)
+}
+
 func readRequest() *pluginpb.CodeGeneratorRequest {
 	input, err := io.ReadAll(os.Stdin)
 	if err != nil {
-		panic(err)
+		fail(err)
 	}
 
 	var req pluginpb.CodeGeneratorRequest
 	if unmarshalErr := proto.Unmarshal(input, &req); unmarshalErr != nil {
-		panic(unmarshalErr)
+		fail(unmarshalErr)
 	}
 	return &req
 }
@@ -54,7 +62,7 @@ func createPlugin(req *pluginpb.CodeGeneratorRequest) *protogen.Plugin {
 	opts := protogen.Options{}
 	plugin, err := opts.New(req)
 	if err != nil {
-		panic(err)
+		fail(err)
 	}
 	return plugin
 }
@@ -93,7 +101,7 @@ func createServiceGenerator(
 func renderService(generator *openapiv3.Generator) []byte {
 	output, renderErr := generator.Render()
 	if renderErr != nil {
-		panic(renderErr)
+		fail(renderErr)
 	}
 	return output
 }
@@ -112,7 +120,7 @@ func writeServiceFile(
 
 	generatedFile := plugin.NewGeneratedFile(filename, "")
 	if _, writeErr := generatedFile.Write(output); writeErr != nil {
-		panic(writeErr)
+		fail(writeErr)
 	}
 }
 
@@ -122,11 +130,11 @@ func writeResponse(plugin *protogen.Plugin) {
 
 	respOutput, err := proto.Marshal(resp)
 	if err != nil {
-		panic(err)
+		fail(err)
 	}
 
 	if _, writeErr := os.Stdout.Write(respOutput); writeErr != nil {
-		panic(writeErr)
+		fail(writeErr)
 	}
 }
 
